@@ -58,6 +58,12 @@ def run(res, tier):
                     res.known("F31", "entities outside the area the pole grid was laid over (user-placed entities far from the compiler-placed cluster / at negative coordinates; layout-dependent stragglers) are not powered",
                               example={"source": r["source"], "options": o, "unpowered": g["unpowered"][:5]})
                     stats["finding:F31"] += 1
+                elif all(0 < k <= len(ids) and ids[k - 1] in user for k in g.get("unpowered_inside", [])):
+                    # the grid point whose supply square would hold a user-placed entity is skipped when the entity (or
+                    # its reserved margin) occupies that tile, and nothing replaces it
+                    res.known("F41", "a user-placed consumer sits in a hole of the pole grid: the grid point next to it was skipped because its tile was taken, and no other pole was added",
+                              example={"source": r["source"], "options": o, "unpowered": [ids[k - 1] for k in g["unpowered_inside"][:5]]})
+                    stats["finding:F41"] += 1
                 else:
                     stats["unpowered"] += 1
                     res.violation({"reason": "an entity that consumes electricity lies outside every pole's supply area",
